@@ -396,7 +396,15 @@ theorem spec_other_columns (a : Action) (c : String) (hc : a.cols.contains c = f
             · rw [getC_of_not_mem _ _ hm, getC_of_not_mem _ _ (by rw [keys_specCells]; exact hm)]
           · simp [hs]
 
-/-- a list that is not covered by the stack (`include_types`) is untouched, whatever is assigned -/
+/-- a list that is not covered by the stack (`include_types`) is untouched, whatever is assigned.
+
+Bystanders — lists *outside* the edited chart (a second chart that was given this chart's lists, `hard.bpms = easy.bpms`;
+a free-standing `ListClass(m.hits)`) — need no theorem of their own: the model has value semantics, `step`/`sstep` map a
+chart (a mapset) to a chart (a mapset) and cannot mention any other value, so "nothing outside the covered lists
+changes" is this lemma together with `spec_frame`; for charts of a mapset beyond the assigned frame it is the last
+clause of `mapset_broadcast`.  What the model cannot exhibit is *aliasing* in the implementation (two list objects on
+one DataFrame, a stack that is a view of a list's frame): that part is observed by the harness, which keeps such
+bystanders next to every history and requires them to be bit-for-bit unchanged after every call. -/
 theorem spec_nonmember (a : Action) : ∀ (ts : List Tbl) (off : Nat) (ms : List Bool) (k : Nat),
     ms[k]? = some false → (specTbls a off ts ms)[k]? = ts[k]? := by
   intro ts
